@@ -1,5 +1,6 @@
 import NetVerif.Driver.Util
 import NetVerif.Model.HtmlTok
+import NetVerif.Model.HtmlTokExact
 /-!
 Monitor driver for C39 (V-tie). Events of one tokenizer run:
   run <maxBuf> <inputhex> <config…>      start of a run (config is the harness's business)
@@ -9,6 +10,17 @@ Monitor driver for C39 (V-tie). Events of one tokenizer run:
 Verdict per line: `ok` or `reject <why>`.
 -/
 open NetVerif.Driver NetVerif.Model.HtmlTok
+
+/-- D-tie line: `tokenize <maxBuf> <inputhex> <cdata> <ctx|-> <seed> <chunkMax> <eof|custom> <nirt> <api>`
+→ `ok <type>:<rawlen> … end <eof|maxbuf|other> <len(Raw()) of the ErrorToken>` -/
+def exactTokenize (mb : Nat) (inp : List Nat) (cdata : Bool) (ctx : String) (errKind : String) : String :=
+  let ctxBytes : List Nat := if ctx == "-" then [] else ctx.toUTF8.toList.map (·.toNat)
+  let z0 := NetVerif.Model.HtmlTokExact.newTokenizer inp ctxBytes mb cdata (if errKind == "eof" then NetVerif.Model.HtmlTokExact.Err.eof else NetVerif.Model.HtmlTokExact.Err.other)
+  let (toks, z) := NetVerif.Model.HtmlTokExact.tokenizeAll z0
+  if z.fuelOut then "fuel" else
+  let kind := match z.err with
+    | .eof => "eof" | .exceeded => "maxbuf" | .other => "other" | .none => "none"
+  "ok" ++ String.join (toks.map fun t => s!" {t.ty}:{t.stop - t.start}") ++ s!" end {kind} {z.rawEnd - z.rawStart}"
 
 def c39Step (st : Option Mon) (line : String) : Option Mon × String :=
   match tokens line with
@@ -37,6 +49,12 @@ def c39Step (st : Option Mon) (line : String) : Option Mon × String :=
     | none, _, _, _ => (st, "reject no-run")
     | _, _, _, _ => (st, "bad-op")
   | ["panic"] => (st, "reject implementation-panicked-or-hung")
+  | ["tokenize", mb, inp, cdata, ctx, _seed, _chunk, errKind, "0", "0"] =>
+    match parseNat mb, parseBytes inp with
+    | some mb, some inp =>
+      if errKind == "eof" ∨ errKind == "custom" then (st, exactTokenize mb inp (cdata == "1") ctx errKind)
+      else (st, "bad-op")
+    | _, _ => (st, "bad-op")
   | _ => (st, "bad-op")
 
 def main : IO Unit := runLoop c39Step none
